@@ -558,7 +558,7 @@ Proof.
     destruct (PB eq_refl) as (_ & _ & Pr & _).
     eapply (fmid_post cfg s); eauto; try reflexivity.
     intros k. rewrite getj_set_mt. etransitivity; [apply fl_set_job|reflexivity]. rewrite getj_set_pl.
-    destruct (_ || _); cbn; auto.
+    destruct (negb _); cbn; auto.
   - (* CTryAdd : POOL_tryAdd *)
     assert (Ha : alldone (mt s) = false).
     { destruct (alldone (mt s)) eqn:X; auto. destruct (A2 eq_refl) as [?|[?|(? & _)]]; discriminate. }
